@@ -206,11 +206,17 @@ Fixpoint collect_sel (vars : list vardef) (acc : list name) (s : selection) : li
 Definition collect_op (o : operation) : list name :=
   fold_left (fun a x => collect_sel (op_vars o) a x) (op_sels o) (collect_dirs (op_vars o) [] (op_dirs o)).
 
-(* LeaveDocument, first loop: one fresh name per recorded variable; the mapping (new, old) *)
-Fixpoint assign_names (olds : list name) (mapping : list (name * name)) : list (name * name) :=
+(* LeaveDocument.  [fx] = true: the code as repaired (fix of finding mapper-name-collision): the
+   names of variable definitions that are NOT recorded -- and so keep their name -- are reserved.
+   [fx] = false: the historical code, which reserved nothing. *)
+Definition reserved_names (fx : bool) (vars : list vardef) (olds : list name) : list name :=
+  if fx then filter (fun n => negb (mem_bytes n olds)) (map vd_name vars) else [].
+(* first loop: one fresh name per recorded variable (not a key of the mapping so far, not
+   reserved); the mapping (new, old) *)
+Fixpoint assign_names (avoid : list name) (olds : list name) (mapping : list (name * name)) : list (name * name) :=
   match olds with
   | [] => mapping
-  | o :: r => assign_names r (mapping ++ [(fresh_name (map fst mapping), o)])
+  | o :: r => assign_names avoid r (mapping ++ [(fresh_name (map fst mapping ++ avoid), o)])
   end.
 Definition new_of (mapping : list (name * name)) (old : name) : name :=
   match find (fun p => bytes_eqb (snd p) old) mapping with
@@ -250,12 +256,15 @@ Fixpoint insert_vardef (x : vardef) (l : list vardef) : list vardef :=
   end.
 Definition sort_vardefs (l : list vardef) : list vardef := fold_right insert_vardef [] l.
 
-Definition map_variables (o : operation) : operation * list (name * name) :=
-  let mp := assign_names (collect_op o) [] in
+Definition map_variables_gen (fx : bool) (o : operation) : operation * list (name * name) :=
+  let olds := collect_op o in
+  let mp := assign_names (reserved_names fx (op_vars o) olds) olds [] in
   ({| op_kind := op_kind o; op_name := op_name o;
       op_vars := sort_vardefs (map_vardefs mp [] (op_vars o));
       op_dirs := map_direct_dirs mp (op_dirs o);
       op_sels := map (map_direct_sel mp) (op_sels o) |}, mp).
+(* the code as it is now *)
+Definition map_variables (o : operation) : operation * list (name * name) := map_variables_gen true o.
 
 (* VariablesView.Get on the first path element: a name that is a key of the remap (new -> old)
    is read under the old name, any other name under itself *)
